@@ -972,6 +972,8 @@ def big_recipes(quick=True):
             ns = (65535, 65536, 65537) if lk in ("type_obj", "type_enum") else (65536,)
         else:
             ns = (5000, 65535, 65536, 65537, 131072)
+        if lk not in ("type_obj", "type_enum"):
+            ns = (511, 512, 513) + ns        # the Coq model evaluates these sizes for the two `type` forms
         for n in ns:
             out.append({"kind": "entries", "list": lk, "n": n})
     for lk in ("type_obj", "type_enum"):
